@@ -25,6 +25,13 @@
 #include <sensors.h>
 #include <dipole.h>
 #include <constants.h>
+#include <matrix.h>
+#include <sparse_matrix.h>
+#include <symmatrix.h>
+#include <progressbar.h>
+#define private public
+#include <gain.h>
+#undef private
 #include <map>
 #include <memory>
 #include "wire.h"
@@ -174,6 +181,29 @@ static FWire c08(Reader& r,FReader& f) {
         g.load(b+"model.geom",b+"model.cond");
         if (which==0) return outMat(DipSourceMat(g,D,Integrator(order,levels,tol),""));
         return outMat(DipSource2InternalPotMat(g,D,P,""));
+    }
+    case 11: {  // every gain class of gain.h for a batch, for the permuted batch and for every dipole alone (one head matrix):
+                // mid nd perm[nd] | dipoles ; sensors from m<mid>/eeg.txt, meg.txt
+        const ll mid=r.z(); const Geometry& g = geo_of(mid); const size_t nd=r.n();
+        std::vector<size_t> perm(nd); for (size_t i=0;i<nd;++i) perm[i]=r.n();
+        const Matrix D = getDipoles(nd,f);
+        const std::string d = "m"+std::to_string(mid)+"/";
+        const Sensors electrodes((d+"eeg.txt").c_str()); const Sensors squids((d+"meg.txt").c_str());
+        const SymMatrix HM = HeadMat(g); const SymMatrix HMi = HM.inverse();
+        const SparseMatrix H2E = Head2EEGMat(g,electrodes); const Matrix H2M = Head2MEGMat(g,squids);
+        FWire o; o.z = Wire{ST_OK,(ll)H2E.nlin(),(ll)H2M.nlin(),(ll)nd};
+        auto put = [&](const Matrix& M) { for (size_t i=0;i<M.nlin();++i) for (size_t j=0;j<M.ncol();++j) o.f.push_back(M(i,j)); };
+        auto gains = [&](const Matrix& dip) {
+            const Matrix SM = DipSourceMat(g,dip,""); const Matrix S2M = DipSource2MEGMat(dip,squids);
+            const GainEEG g1(HMi,SM,H2E); const GainEEGadjoint g2(g,dip,HM,H2E); const GainEEGMEGadjoint g36(g,dip,HM,H2E,H2M,S2M);
+            const GainMEG g4(HMi,SM,H2M,S2M); const GainMEGadjoint g5(g,dip,HM,H2M,S2M);
+            put(g1); put(g2); put(g36.EEGleadfield); put(g4); put(g5); put(g36.MEGleadfield);
+        };
+        gains(D);
+        Matrix Dp(nd,6); for (size_t i=0;i<nd;++i) for (int k=0;k<6;++k) Dp(i,k)=D(perm[i],k);
+        gains(Dp);
+        for (size_t i=0;i<nd;++i) gains(D.submat(i,1,0,6));
+        return o;
     }
     case 6: {   // the quadrature tables compiled into the library
         FWire o; o.z.push_back(ST_OK);
